@@ -125,3 +125,179 @@ def run_serve_unary(S: Any, writes_may_fail: bool = False) -> dict[str, Any]:
     out = S.outcome(srv.RpcServer._serve_unary, me, transport, info, {}, stats=SObj(None, kind="Stats"), shm=None)
     ctx.update({"W": W, "out": out, "info": info, "impl_mode": impl_mode["v"], "build": wr_mode.get("build"), "describe": describe})
     return ctx
+
+
+# =========================================================================================
+# _serve_stream
+# =========================================================================================
+
+AB_SHAPE = RecShape("AB", tag=IntShape)
+
+
+def run_serve_stream(S: Any, writes_may_fail: bool = False, reader_may_fail: bool = True) -> dict[str, Any]:
+    """Execute the real RpcServer._serve_stream with arbitrary user code and an arbitrary client script.
+
+    Ghost counters (Int, in S.ghost, declared in loop_ghost so they are havocked at the loop head and
+    constrained by the invariant): n_read (data inputs read), n_process, n_flush, n_released (inputs
+    released), n_resolved (inputs whose shm/external region was resolved)."""
+    import z3
+
+    W = World(S)
+    W.writes_may_fail = writes_may_fail
+    header_declared = S.choose(2) == 1
+    info = method_info("m", MethodType.STREAM, header=header_declared)
+    ctx = install_common(S, W, info)
+    H = S.handlers
+    for g in ("n_read", "n_process", "n_flush", "n_released", "n_cancel_hook"):
+        S.ghost[g] = SInt(z3.IntVal(0))
+
+    def bump(g: str) -> None:
+        S.ghost[g] = S.ghost[g] + 1
+
+    # ---- the service method: raises, returns a stream, or returns something that is not a stream
+    result_mode = ["stream", "raises", "not_a_stream", "header_missing"][S.choose(4)]
+    ctx["result_mode"] = result_mode
+    state = SObj(None, kind="State")
+    impl = SObj(None, kind="Impl", m=SObj(None, kind="UserMethod"))
+    impl.closed = True
+
+    def user_method(S, m, **kwargs):
+        S.event("impl_invoked")
+        if result_mode == "raises":
+            raise_(UserError, S.str("user_error_text"))
+        if result_mode == "not_a_stream":
+            junk = SObj(None, kind="NotAStream")
+            junk.closed = True
+            return junk
+        hdr = None if result_mode == "header_missing" else SObj(None, kind="Header")
+        return SObj(None, kind="StreamResult", output_schema=SObj(None, kind="Schema", tag="out"), input_schema=SObj(None, kind="Schema", tag="in"), state=state, header=hdr)
+
+    H["UserMethod.__call__"] = user_method
+    H["Schema.__eq__"] = lambda S, a, b: (a is b) if isinstance(b, SObj) else False
+
+    def write_stream_header(S, dest, header, external_config=None, sink=None, method_name=""):
+        # by contract (the function's own documented behaviour): header None -> TypeError
+        if header is None:
+            raise_(TypeError, "declares header type but returned header=None")
+        W.maybe_fail("header_stream")
+        S.event("header_stream", dest)
+
+    H["_write_stream_header"] = write_stream_header
+
+    # ---- the client's input stream: an arbitrary script
+    import pyarrow.ipc as ipc
+
+    def open_stream(S, src):
+        if reader_may_fail and S.choose(2) == 1:
+            S.event("reader_failed", "open")
+            raise_(pa.ArrowInvalid, "input is not an IPC stream")
+        return SObj(None, kind="RawIpcReader")
+
+    H[ipc.open_stream] = open_stream
+    from vgi_rpc.utils import ValidatedReader
+
+    H[ValidatedReader] = lambda S, raw, validation=None: SObj(None, kind="Reader")
+
+    def read_next(S, r):
+        k = S.choose(4 if reader_may_fail else 3)
+        if k == 0:
+            S.event("input_eos")
+            raise_(StopIteration)
+        if k == 1:
+            S.event("input_cancel")
+            return (SObj(None, kind="Batch", tag="cancel"), {b"vgi_rpc.cancel": b"1"})
+        if k == 3:
+            S.event("reader_failed", "read")
+            raise_(pa.ArrowInvalid, "corrupt batch")
+        bump("n_read")
+        return (SObj(None, kind="Batch", tag="input"), None)
+
+    H["Reader.read_next_batch_with_custom_metadata"] = read_next
+
+    def drain(S, reader):
+        S.event("drained")
+        if reader_may_fail and S.choose(2) == 1:
+            raise_(pa.ArrowInvalid, "garbage after cancel")
+
+    H["_drain_stream"] = drain
+
+    # ---- per-input processing (each step may fail like user/pyarrow code can)
+    def may_raise(tag, cls=UserError):
+        if S.choose(2) == 1:
+            S.event("step_failed", tag)
+            raise_(cls, tag)
+
+    def resolve_external(S, batch, cm, config, ipc_validation=None):
+        may_raise("resolve_external", RuntimeError)
+        return (batch, cm)
+
+    def resolve_shm(S, batch, cm, shm):
+        may_raise("resolve_shm", ValueError)
+        return (batch, cm, SObj(None, kind="ReleaseFn"))
+
+    def coerce(S, batch, schema):
+        may_raise("coerce", TypeError)
+        return batch
+
+    H["resolve_external_location"] = resolve_external
+    H["resolve_shm_batch"] = resolve_shm
+    H["_coerce_input_batch"] = coerce
+
+    def annotated(S, batch=None, custom_metadata=None, _release_fn=None):
+        return SObj(None, kind="AB", tag=S.int("ab_tag"))
+
+    H[AnnotatedBatch] = annotated
+
+    def ab_release(S, ab):
+        bump("n_released")
+        if S.choose(2) == 1:
+            raise_(ValueError, "No allocation at offset")  # shm.free may raise
+
+    H["AB.release"] = ab_release
+
+    def collector(S, schema, prior_data_bytes=0, server_id=None, producer_mode=False):
+        return SObj(None, kind="Out", finished=S.bool("out_finished"), total_data_bytes=S.int("out_bytes"), emit_client_log_message=SObj(None, kind="EmitFn"))
+
+    H[OutputCollector] = collector
+    H["Out.validate"] = lambda S, o: may_raise("validate", RuntimeError)
+
+    def process(S, st, ab, out, pctx):
+        bump("n_process")
+        S.oblige("lifecycle.no_process_after_cancel", not S.events("input_cancel"), kind="trace")
+        may_raise("process")
+
+    H["State.process"] = process
+
+    def on_cancel(S, st, cctx):
+        bump("n_cancel_hook")
+        may_raise("on_cancel")
+
+    H["State.on_cancel"] = on_cancel
+
+    def flush(S, writer, out, config=None, shm=None):
+        may_raise("flush", pa.ArrowInvalid)
+        W.maybe_fail("flush")
+        bump("n_flush")
+        return 0
+
+    H["_flush_collector"] = flush
+    S.inline.add("RpcServer._prepare_method_call")
+
+    G = S.ghost
+
+    def inv(L):
+        return [
+            ("process_per_input", And(G["n_process"] == G["n_read"], G["n_flush"] == G["n_read"], G["n_read"] >= 0)),
+            ("all_but_last_input_released", G["n_released"] == ite(G["n_read"] > 0, G["n_read"] - 1, SInt(z3.IntVal(0)))),
+            ("prev_input_tracks_reads", SBool(z3.BoolVal(L.prev_input is None)) == (G["n_read"] == 0)),
+            ("no_cancel_hook_yet", G["n_cancel_hook"] == 0),
+        ]
+
+    S.invariants[("RpcServer._serve_stream", 0)] = inv
+    S.loop_havoc[("RpcServer._serve_stream", 0)] = {"prev_input": OptShape(AB_SHAPE), "cumulative_bytes": IntShape}
+    S.loop_ghost[("RpcServer._serve_stream", 0)] = ["n_read", "n_process", "n_flush", "n_released"]
+    me = make_server(S, ctx["hook"], impl)
+    transport = SObj(None, kind="Transport", reader=SObj(None, kind="RawReader"), writer=SObj(None, kind="RawWriter"))
+    out = S.outcome(srv.RpcServer._serve_stream, me, transport, info, {}, stats=SObj(None, kind="Stats"), shm=None)
+    ctx.update({"W": W, "out": out, "info": info, "header_declared": header_declared, "G": G})
+    return ctx
